@@ -41,6 +41,8 @@ def hand_export(name: str):
         return to_onnx(lambda x: g(x) * 2.0 + x[jnp.array([1, 1])], [(3, 4)])
     if name == "input_params_forwarded":
         return to_onnx(fnmods.c14_outer_params, [("B", 4)], input_params={"deterministic": True, "scale": np.float32(2.0), "flag": False})
+    if name == "function_used_by_failed_conversion":
+        return to_onnx(fnmods.c14_gated_model, [(2, 3)])
     if name == "nchw_add_forest":
         return to_onnx(lambda a, b, c: (a + b) + (c + a) * 2.0, [(2, 3, 3, 3)] * 3, inputs_as_nchw=[0, 1, 2], outputs_as_nchw=[0])
     if name == "function_dedup_array_captures":
@@ -62,7 +64,7 @@ def hand_export(name: str):
     raise KeyError(name)
 
 
-HAND = ["gather_const_indices", "input_params_forwarded", "nchw_add_forest", "function_dedup_array_captures", "nested_functions", "loops_and_conds", "symbolic_two", "many_transposes", "double_consts"]
+HAND = ["function_used_by_failed_conversion", "gather_const_indices", "input_params_forwarded", "nchw_add_forest", "function_dedup_array_captures", "nested_functions", "loops_and_conds", "symbolic_two", "many_transposes", "double_consts"]
 
 
 def _requests(tier: str, seed: int) -> list[str]:
